@@ -170,6 +170,8 @@ def _eval_chunk(args):
                     n += 1
                     try:
                         inview = bool(val in dm.specifier)
+                        if hasattr(dm.specifier, "contains") and bool(dm.specifier.contains(val)) != inview:
+                            inview = not bool(st["table"][i])           # `in` and contains() disagree: one of them is wrong
                     except Exception as ex:  # noqa: BLE001
                         fails.append(("C11", f"C11:view({a['kind']},{a['var']},{a['op']}):raises-{type(ex).__name__}", f"{text!r}: {ex!r}", {"text": text}))
                         break
@@ -234,14 +236,30 @@ def _fromspec_chunk(args):
                 continue
             seen.add(val)
             n += 1
+            # what the specifier admits, by an oracle that does not run the library: packaging on the clause text,
+            # plain version comparisons on constructed ranges / holes
+            V = Version(val)
+            if it["k"] == "fromclause":
+                from packaging.specifiers import SpecifierSet
+                want = bool(SpecifierSet(text).contains(val, prereleases=True))
+            elif it["k"] == "fromhole":
+                want = (V < lo or (h["ui"] and V == lo)) or (V > hi or (h["li"] and V == hi))
+            else:
+                want = (lo is None or V > lo or (r["li"] and V == lo)) and (hi is None or V < hi or (r["ui"] and V == hi))
+            want = bool(want)
+            if st["table"] and bool(st["table"][i]) != want:
+                raise tla.MachineryError(f"specification disagrees with the reference oracle on the specifier for {ctx} at {val}")
             try:
                 got = bool(m.evaluate(dict(env, extras=set())))
-                want = bool(val in spec)
+                lib_in = bool(val in spec)
+                lib_contains = bool(spec.contains(val)) if hasattr(spec, "contains") else lib_in
             except Exception as e:  # noqa: BLE001
                 fails.append(("C11", f"C11:from_specifier({name},{shape}):evaluate-raises-{type(e).__name__}", repr(e), ctx))
                 break
-            if st["table"] and bool(st["table"][i]) != want:
-                raise tla.MachineryError(f"specification disagrees with `in` on the specifier for {ctx} at {val}")
+            if lib_in != want or lib_contains != want:
+                which = "in" if lib_in != want else "contains"
+                fails.append(("C11", f"C11:specifier-membership({shape},{which}):differs", f"{val} {which} {spec} is {not want}; the specifier's set {'admits' if want else 'rejects'} it", dict(ctx, value=val)))
+                break
             if got != want:
                 txt = str(m)
                 fails.append(("C11", f"C11:from_specifier({name},{shape},{txt.split()[1] if ' ' in txt else ''}):atom-differs-from-specifier",
